@@ -18,6 +18,12 @@ def parse_new(out):
     n = r.next()
     names = [r.name() for _ in range(n)]
     vals = [fxgen.b2f(r.next()) for _ in range(n * n)]
+    # the INTERNAL order of the currencies is not part of the property (rates are asked for by currency): canonical
+    # order = names sorted, matrix permuted with them (a repeated name leaves the output as printed)
+    if len(set(names)) == n:
+        o = sorted(range(n), key=lambda i: names[i])
+        names = [names[i] for i in o]
+        vals = [vals[i * n + j] for i in o for j in o]
     return cls, names, vals
 
 
@@ -102,10 +108,10 @@ def check_property_on_impl(ctx, c, out):
         if cls != 0:
             what = "a tree-shaped quote set is not accepted (class %d; 1 = Err, 2 = abort)" % cls
         else:
-            exp = expected_order(qs, base)
+            exp = sorted(expected_order(qs, base))
             n = len(names)
-            if names != exp:
-                what = "currency order %s differs from base-first/quote-order %s" % (names, exp)
+            if sorted(names) != exp or len(set(names)) != n:
+                what = "the market's currencies %s are not the currencies of the quotes %s, each once" % (names, exp)
             else:
                 ref = fxgen.reference_rates(qs, names)
                 idx = {s: i for i, s in enumerate(names)}
@@ -134,7 +140,7 @@ def run(ctx):
                 "dual-valued quotes, rates 10^U(-4,4); every labelled tree on 2-5 currencies and a sample (thorough: all 1296) on 6; "
                 "malformed stream (one third): duplicate and inverse-duplicate quotes, cycle + separate component, missing / extra "
                 "quote, mixed settlement, bad currency codes, same-currency pair, foreign base, empty list, plus valid non-ASCII "
-                "3-byte codes and mixed-case spellings. Compared: Ok/Err/abort class, currency order, all n*n rate() values "
+                "3-byte codes and mixed-case spellings. Compared: Ok/Err/abort class, the set of currencies, all n*n rate() values BY CURRENCY NAME (the internal order is not part of the property) "
                 "(1e-9 relative); additionally the implementation alone against path products, exact quoted pairs, exact unit "
                 "diagonal. Non-trivial = accepted market with >= 3 currencies or any rejected one; distinct by encoded input.")
     ctx.trusted = [
